@@ -90,6 +90,7 @@ def family():
     add("union_named_mix", ["null", _enum("Eu"), _fixed("Fu", 2), _rec("Ru", [f("k", "long")])], "union")
     add("union_arr_map", ["null", {"type": "array", "items": "int"}, {"type": "map", "values": "string"}], "union")
     add("union_float_double", ["float", "null", "double"], "union")
+    add("union_float_dictdouble", ["null", "float", {"type": "double"}, {"type": "string"}], "union")
     add("union_double_float", _rec("Df", [f("w", ["double", "float"])]), "union")
     add("union_overlap", [_rec("Oa", [f("a", "int"), f("b", ["null", "int"], default=None)]),
                           _rec("Ob", [f("a", "int"), f("c", "string", default="x")])], "union", "unionrec")
@@ -115,6 +116,13 @@ def family():
         "defaults")
     add("rec_defaults2", _rec("Dflt2", [f("s", "string", default="dd"), f("r", "int"),
                                         f("e", _enum("De"), default="B")]), "defaults")
+    # a named type defined in the schema that is not a branch of the union next to it
+    add("hint_foreign", _rec("Hf", [f("p", _rec("Person", [f("name", "string")])),
+                                    f("u", ["null", _rec("Locker", [f("n", "int")]), _rec("Addr2", [f("street", "string")])])]),
+        "union", "unionrec")
+    # named branches that accept the same value: only (name, value) reporting tells them apart
+    add("union_two_enums_one_rec", [dict(_enum("Ea"), symbols=["A", "B"]), dict(_enum("Eb"), symbols=["B", "C"]),
+                                    _rec("Rq", [f("k", "int")]), _fixed("Fq", 1)], "union", "ambiguous")
     # record branches that a datum can match without supplying any of their fields
     add("union_rec_alldefault", ["null", _rec("Opts", [f("level", "int", default=3), f("tag", "string", default="t")])],
         "union", "defaults", "unionrec")
